@@ -1,6 +1,7 @@
 import Secp.Proofs.Ecdsa
 import Secp.Props.C03
 import Secp.Proofs.Slices
+import Secp.Proofs.BytesProgSig
 /-
   Props/C07 — public-key recovery returns the signer's key in every signature form.
   Model: `recoverM`, `exportM`, `exportCompactM`, `parseCompactM`.  Spec: `ecdsaRecover` (SEC1 §4.1.6).
@@ -49,5 +50,15 @@ theorem recover_iff_unconditional (h : Bytes) (r s v : Nat) (hr0 : 0 < r) (hr : 
     `contracts_justified`) this is what makes the value-level model above faithful to the limb code. -/
 theorem recover_field_arithmetic_exact :
     Secp.Proofs.Slices.entriesOK ["github.com/ModChain/secp256k1.Signature.RecoverPublicKey", "github.com/ModChain/secp256k1.RecoverCompact", "github.com/ModChain/secp256k1.Signature.BruteforceRecoveryCode", "github.com/ModChain/secp256k1.modNScalarToField"] = true := by decide +kernel
+
+
+/-! ### ParseCompactSignature as REGENERATED from signature.go (tools/gotr pass T7) -/
+
+/-- the statement-by-statement translation of `ParseCompactSignature` (length check, header range 27..34, `- 27` on the byte,
+    compressed flag `&& 4`, recovery code `&& 3`, the two scalar decodings with their overflow / zero checks, the flag that
+    travels with every error) never panics and is the hand-written model `parseCompactM` used by the theorems above -/
+theorem parseCompact_regenerated (b : Bytes) :
+    Secp.Gen.BytesProg.parseCompact b = Secp.Proofs.BytesProgSig.ofExcept (parseCompactM b) :=
+  Secp.Proofs.BytesProgSig.parseCompact_gen_eq_model b
 
 end Secp.Props.C07
